@@ -119,11 +119,18 @@ func c02Check(ctx *vfCtx, c c02Case) {
 	name, keyID := c.Signer.Name, KeyID(c.Signer.KeyID)
 
 	var signed []byte
-	if vfCatch(ctx, "C02", func() { signed, err = SignJSON(name, keyID, priv, append([]byte(nil), c.Obj...)) }) {
+	handed := append([]byte(nil), c.Obj...)
+	if vfCatch(ctx, "C02", func() { signed, err = SignJSON(name, keyID, priv, handed) }) {
 		return
 	}
 	if err != nil {
 		ctx.Fail("C02/sign-error", "SignJSON(%q) failed: %v", c.Obj, err)
+		return
+	}
+	// the message handed over is the caller's: it reads as before (a second entity signs the same
+	// bytes next, a caller compares the signed copy with what it sent)
+	if !bytes.Equal(handed, c.Obj) {
+		ctx.Fail("C02/message-overwritten-by-signing", "SignJSON changed the message it was given: %q now reads %q", c.Obj, handed)
 		return
 	}
 	ctx.Class("signed")
@@ -132,8 +139,12 @@ func c02Check(ctx *vfCtx, c c02Case) {
 	}
 	verify := func(label string, n string, k KeyID, p ed25519.PublicKey, msg []byte) error {
 		var verr error
-		if vfCatch(ctx, "C02", func() { verr = VerifyJSON(n, k, p, append([]byte(nil), msg...)) }) {
+		given := append([]byte(nil), msg...)
+		if vfCatch(ctx, "C02", func() { verr = VerifyJSON(n, k, p, given) }) {
 			return fmt.Errorf("panic")
+		}
+		if !bytes.Equal(given, msg) {
+			ctx.Fail("C02/message-overwritten-by-verifying", "VerifyJSON (%s) changed the message it was given: %q now reads %q", label, msg, given)
 		}
 		return verr
 	}
@@ -364,6 +375,9 @@ func c02Gen(t *rapid.T) c02Case {
 			sigs = sigs.with(who.Name, ent)
 		}
 		v = v.with("signatures", sigs)
+	} else if rapid.IntRange(0, 7).Draw(t, "nullSignatures") == 0 {
+		// what a struct with a nil signature table marshals to: nobody has signed yet
+		v = v.with("signatures", jv{K: 'n'})
 	}
 	if rapid.Bool().Draw(t, "preUnsigned") {
 		v = v.with("unsigned", jgenValue(t, o, 1, "uns"))
